@@ -201,6 +201,7 @@ def handle : Handler := fun op j =>
           | some n => jNat n
         pure (res (Json.mkObj [("dump", dumpJ), ("iso_load_q", isoLQ), ("iso_load_p", isoLP),
           ("iso_p_q", .bool (isoCheck h r h' r')), ("nokeycycle", .bool (noKeyCycle hashReads h r)),
+          ("all_visited", .bool (dumpCount h r == some h.size)),
           ("unready", unr)]))
       | _, _ => pure (res (.str "malformed"))
   | "pickle.hashreads" => some do
